@@ -7,7 +7,8 @@ always create all eight, so every tree reachable from a block by refinements is 
 `Tree`).  Keys are modelled on `Nat` with the arithmetic of the C++ written out
 (`x >> k` = `x / 2^k`, `x << k` = `x * 2^k`, `x & 7` = `x % 8`, `x & 0x3ff` = `x % 1024`);
 `Props/C16.lean` shows all values stay below 2^32 / 2^64 for depth ≤ 10 and ≤ 1024 blocks per
-axis, so the fixed-width reading is faithful.  The geometric descent is generic numeric code.
+axis, so the fixed-width reading is faithful.  The geometric descent is generic numeric code;
+block and child indices are clamped as in the code (fix 2fae05a), so the descent is total.
 Core Lean only.
 -/
 namespace CMacVerif.AMR
@@ -118,8 +119,10 @@ def enumerate (next : Nat → Nat) (stop : Nat) : Nat → Nat → List Nat
 section
 variable {α : Type} [Add α] [Sub α] [Mul α] [Div α] [OfScientific α] [Trunc α] [OfInt α]
 
-/-- `uint_fast8_t ix = 2 * (position.x() - box.get_anchor().x()) / box.get_sides().x();` -/
-def childIndex (p a s : α) : Nat := Trunc.toNat (2.0 * (p - a) / s)
+/-- `uint_fast8_t ix = 2 * (position.x() - box.get_anchor().x()) / box.get_sides().x();`
+followed by `ix = std::min< uint_fast8_t >(ix, 1);` (round off: a position on the upper wall of
+the cell is in the upper child) -/
+def childIndex (p a s : α) : Nat := min (Trunc.toNat (2.0 * (p - a) / s)) 1
 
 /-- `box.get_sides() *= 0.5; box.get_anchor()[i] += ix * box.get_sides()[i];` -/
 def childBox (b : Box3 α) (ix iy iz : Nat) : Box3 α :=
@@ -139,17 +142,6 @@ def descend : Tree → Nat → V3 α → Box3 α → Nat × Box3 α
     let cell := 4 * ix + 2 * iy + iz
     let r := descend (c ⟨cell % 8, Nat.mod_lt _ (by decide)⟩) (level + 1) p (childBox box ix iy iz)
     (cell * 2 ^ (3 * level) + r.1, r.2)
-
-/-- does the descent compute a child index outside `{0,1}`?  (Then the C++ reads `_children`
-out of bounds; impossible in exact arithmetic for positions inside the box, see Props.) -/
-def descendOutOfRange : Tree → V3 α → Box3 α → Bool
-  | .leaf, _, _ => false
-  | .node c, p, box =>
-    let ix := childIndex p.x box.ax box.sx
-    let iy := childIndex p.y box.ay box.sy
-    let iz := childIndex p.z box.az box.sz
-    if ix ≥ 2 ∨ iy ≥ 2 ∨ iz ≥ 2 then true
-    else descendOutOfRange (c ⟨(4 * ix + 2 * iy + iz) % 8, Nat.mod_lt _ (by decide)⟩) p (childBox box ix iy iz)
 
 /-- box of the leaf reached by a path of child indices (what `refine`/`create_all_cells` store
 in `_box`: `ix = (i & 4) >> 2`, `iy = (i & 2) >> 1`, `iz = i & 1`) -/
@@ -222,8 +214,10 @@ def Grid.mk' (nx ny nz level : Nat) : Grid := ⟨nx, ny, nz, fun _ _ _ => full l
 section
 variable {α : Type} [Add α] [Sub α] [Mul α] [Div α] [OfScientific α] [Trunc α] [OfInt α]
 
-/-- `ix = _ncell.x() * (position.x() - _box.get_anchor().x()) / _box.get_sides().x();` -/
-def blockIndex (n : Nat) (p a s : α) : Nat := Trunc.toNat ((OfInt.ofNat n : α) * (p - a) / s)
+/-- `ix = _ncell.x() * (position.x() - _box.get_anchor().x()) / _box.get_sides().x();` followed by
+`ix = std::min(ix, _ncell.x() - 1);` (round off can assign a position on the upper wall of a
+block to the next block; the last block has no next block) -/
+def blockIndex (n : Nat) (p a s : α) : Nat := min (Trunc.toNat ((OfInt.ofNat n : α) * (p - a) / s)) (n - 1)
 
 /-- box of the block: `sides = box.sides / ncell; anchor = box.anchor + ix * sides` -/
 def blockBox (g : Grid) (b : Box3 α) (ix iy iz : Nat) : Box3 α :=
@@ -250,15 +244,6 @@ def keyLoop : Nat → Nat → V3 α → Box3 α → Nat → Nat
     let iz := childIndex p.z box.az box.sz
     -- cell += ((ix << 2) + (iy << 1) + iz) << (3 * ilevel);
     keyLoop n (ilevel + 1) p (childBox box ix iy iz) (cell + (ix * 4 + iy * 2 + iz) * 2 ^ (3 * ilevel))
-
-/-- does the loop of `get_key(level, position)` compute a child index outside `{0,1}`? -/
-def keyLoopOutOfRange : Nat → V3 α → Box3 α → Bool
-  | 0, _, _ => false
-  | n + 1, p, box =>
-    let ix := childIndex p.x box.ax box.sx
-    let iy := childIndex p.y box.ay box.sy
-    let iz := childIndex p.z box.az box.sz
-    if ix ≥ 2 ∨ iy ≥ 2 ∨ iz ≥ 2 then true else keyLoopOutOfRange n p (childBox box ix iy iz)
 
 /-- `AMRGrid::get_key(level, position)`: key of the (possibly virtual) cell on `level` that
 contains the position; does not look at the tree -/
